@@ -84,7 +84,7 @@ def post_of(st):
 def res_of(st, p):
     r = fn(st["res"], p)
     return {"kind": r["kind"], "rc": r["rck"][0], "rcc": r["rck"][1], "tl": r["tl"], "chg": r["chg"], "tot": r["tot"],
-            "ech": r["ech"], "st": bool(r["st"])}
+            "ech": r["ech"], "etot": r["etot"], "st": bool(r["st"])}
 
 
 def start_step(name, a, lab):
@@ -333,19 +333,21 @@ def parallel(jobs, width=5):
 
 # ---------------------------------------------------------------------------------------------------
 NEGATIVES = [("MC_NegReplay.cfg", "OneChargePerQuestion"), ("MC_NegEcho.cfg", "ReplyCookieIsOwn"),
-             ("MC_Forms.cfg", "ClientWithinBudget"), ("MC_NegReuse.cfg", "RememberedIsOwn"),
+             ("MC_Forms.cfg", "ClientWithinBudget"), ("MC_NegFitOutcome.cfg", "SameOutcomeAcrossEntries"),
+             ("MC_NegFitCharge.cfg", "OneChargePerQuestion"), ("MC_NegReuse.cfg", "RememberedIsOwn"),
              ("MC_NegReset.cfg", "EvictionOnlyResets"), ("MC_NegShared.cfg", "NoSharedBucket")]
 
 
 def tlc_jobs(ctx, thorough):
     """Every TLC run of the tier as thunks: state graphs, simulations (their results are driver behaviours), exhaustive
     configs, negative configs.  Returns (jobs, number of leading jobs that yield sequential behaviours)."""
-    quick = [("MC_EntryQ.cfg", 1), ("MC_Free2Q.cfg", 2)]
+    quick = [("MC_EntryQ.cfg", 1), ("MC_Free2Q.cfg", 2), ("MC_Big.cfg", 1)]
     full = [("MC_Entry.cfg", 2), ("MC_Free2.cfg", 3), ("MC_Budget.cfg", 4), ("MC_Cookie.cfg", 4), ("MC_Gate2.cfg", 4),
-            ("MC_Free3.cfg", 3), ("MC_Live.cfg", 3), ("MC_FormsUnmapped.cfg", 1), ("MC_EdgeQ.cfg", 1), ("MC_Budget4.cfg", 4)]
-    negatives = NEGATIVES if thorough else NEGATIVES[:3]
+            ("MC_Free3.cfg", 3), ("MC_Live.cfg", 3), ("MC_FormsUnmapped.cfg", 1), ("MC_EdgeQ.cfg", 1), ("MC_Budget4.cfg", 4),
+            ("MC_Big.cfg", 1), ("MC_Big2.cfg", 3)]
+    negatives = NEGATIVES if thorough else NEGATIVES[:5]
     sims = [("Sim_Budget.cfg", 40, 90), ("Sim_Cookie.cfg", 40, 90), ("Sim_Mixed.cfg", 30, 100), ("Sim_Entry.cfg", 25, 90),
-            ("Sim_Forms.cfg", 12, 80)]
+            ("Sim_Forms.cfg", 12, 80), ("Sim_Big.cfg", 30, 90), ("Sim_Big2.cfg", 20, 90)]
     if thorough:
         sims = [(c, n * 12, d) for c, n, d in sims]
     graphs = ["MC_EdgeTcp.cfg"] + (["MC_Edge.cfg"] if thorough else ["MC_EdgeQ.cfg"])
@@ -395,7 +397,7 @@ def replay_input(groups):
                 k = s["exp"]["kind"] + ("/" + s["entry"] if s["op"] == "call" else "/replay")
                 want[k] = want.get(k, 0) + 1
     need = ["answer/msg", "answer/wire", "answer/inline", "handoff/inline", "answer/replay", "drop/msg", "drop/wire", "drop/inline",
-            "badcookie/msg", "badcookie/wire", "badcookie/inline", "edrop/msg"]
+            "badcookie/msg", "badcookie/wire", "badcookie/inline", "edrop/msg", "tc/msg", "tc/wire", "tc/replay"]
     miss = [k for k in need if not want.get(k)]
     if miss:
         raise vf.MachineryError("pipeline replay: no call with model outcome %s among the behaviours (vacuous)" % miss)
